@@ -24,6 +24,7 @@ const ShimBase = ModPath + "/internal/verifshim/"
 // ImportRewrite replaces an import path in one repository file.
 type ImportRewrite struct {
 	File string            // repo-relative
+	Dir  string            // repo-relative package directory: every non-test file of it that has one of the imports
 	Map  map[string]string // old import path -> new import path
 }
 
@@ -110,7 +111,34 @@ func Generate(c Config) (*Overlay, error) {
 		}
 		ov.Sites = sites
 	}
+	var rewrites []ImportRewrite
 	for _, ir := range c.Profile.Imports {
+		if ir.Dir == "" {
+			rewrites = append(rewrites, ir)
+			continue
+		}
+		// whole package directory: whichever files import one of the paths NOW (a change to the
+		// tree may introduce the import in a file that did not have it)
+		files, _ := filepath.Glob(filepath.Join(c.Repo, ir.Dir, "*.go"))
+		for _, f := range files {
+			if strings.HasSuffix(f, "_test.go") {
+				continue
+			}
+			rel := filepath.Join(ir.Dir, filepath.Base(f))
+			d, err := get(rel)
+			if err != nil {
+				return nil, err
+			}
+			for _, imp := range d.file.Imports {
+				p, _ := strconv.Unquote(imp.Path.Value)
+				if _, ok := ir.Map[p]; ok {
+					rewrites = append(rewrites, ImportRewrite{File: rel, Map: ir.Map})
+					break
+				}
+			}
+		}
+	}
+	for _, ir := range rewrites {
 		d, err := get(ir.File)
 		if err != nil {
 			return nil, err
